@@ -10,14 +10,14 @@ import (
 	"strings"
 	"time"
 
-	btcecdsa "github.com/btcsuite/btcd/btcec/v2/ecdsa"
-	"github.com/btcsuite/btcd/btcec/v2"
 	"github.com/bnb-chain/tss-lib/v2/common"
 	"github.com/bnb-chain/tss-lib/v2/crypto"
 	ecdsakeygen "github.com/bnb-chain/tss-lib/v2/ecdsa/keygen"
 	ecdsasign "github.com/bnb-chain/tss-lib/v2/ecdsa/signing"
 	eddsakeygen "github.com/bnb-chain/tss-lib/v2/eddsa/keygen"
 	"github.com/bnb-chain/tss-lib/v2/tss"
+	"github.com/btcsuite/btcd/btcec/v2"
+	btcecdsa "github.com/btcsuite/btcd/btcec/v2/ecdsa"
 
 	"verif/harness/internal/sched"
 	"verif/harness/internal/val"
